@@ -230,7 +230,7 @@ fn field_ok(exp: &Exp, got: &RVal) -> bool {
 }
 
 /// alternative spec-valid encodings of a composite described by `exp`
-fn composite_variants(exp: &Expect) -> Vec<(String, Vec<u8>)> {
+pub fn composite_variants(exp: &Expect) -> Vec<(String, Vec<u8>)> {
     let comp = refamqp::composite_by_name(exp.composite).expect("composite table");
     let nfields = comp.fields.len();
     let mut out = vec![];
@@ -359,6 +359,21 @@ impl Visitor for TypedC05 {
                     }
                 }
             }
+            // and through the enums that pick their variant by peeking the descriptor
+            for (wrapper, want, got) in typed::wrapper_decodes(ty, &enc, &dbg(item), false) {
+                self.variants.fetch_add(1, Ordering::Relaxed);
+                match got {
+                    Ok(g) if g == want => {}
+                    Ok(g) => f.push((
+                        format!("typed variant-misread {ty} as {wrapper} [{label}]"),
+                        format!("spec-valid encoding {} decodes as {wrapper} to {g}, expected {want}", hex(&enc)),
+                    )),
+                    Err(e) => f.push((
+                        format!("typed variant-rejected {ty} as {wrapper} [{label}]"),
+                        format!("spec-valid encoding {} of {} is {e} when decoded as {wrapper}", hex(&enc), dbg(item)),
+                    )),
+                }
+            }
         }
         f
     }
@@ -423,6 +438,7 @@ impl Visitor for TypedC05 {
                 ("narrowest", secs.iter().flat_map(refamqp::encode_narrowest).collect()),
                 ("widest", secs.iter().flat_map(refamqp::encode_widest).collect()),
                 ("symbol-descriptors", sym_secs.iter().flat_map(refamqp::encode_narrowest).collect()),
+                ("symbol-descriptors-widest", sym_secs.iter().flat_map(refamqp::encode_widest).collect()),
             ];
             for (label, enc) in encs {
                 self.variants.fetch_add(1, Ordering::Relaxed);
@@ -579,6 +595,14 @@ fn replay(p: &std::path::Path, mut out: Outcome) -> Outcome {
             out.violation(s, d, r.clone());
         }
         for (s, d, _) in backward_value(&v, 4096).1 {
+            println!("  FAIL {s}: {d}");
+            out.violation(s, d, r.clone());
+        }
+    } else if kind == "typed-sweep" {
+        let tv = TypedC05 {
+            variants: AtomicU64::new(0),
+        };
+        for (s, d, _) in typed::replay_sweep(&tv, r) {
             println!("  FAIL {s}: {d}");
             out.violation(s, d, r.clone());
         }
